@@ -1032,7 +1032,6 @@ def class_case(rng):
                 bump('call_kind.' + c['kind'].split(':')[1])
         witness['trace_A'] = [list(t) for t in traces['A']]
     drop(*mods)
-    scope = [c for c in flatten(ms['classes']) if c['decorated'] or c['depth'] > 0]
     bump('classes_generated', len(flatten(ms['classes'])))
     bump('conf.' + conf_name)
     for c in flatten(ms['classes']):
@@ -1055,7 +1054,6 @@ def class_case(rng):
     main = find_class(ms, ms['main'])
     for b in main['bases']:
         bump('kind.inherit_decorated' if find_class(ms, b)['decorated'] else 'kind.inherit_undecorated')
-    del scope
     return dict(findings=findings, counts=counts, witness=witness,
                 distinct=(hashlib.sha1(srcA.encode()).hexdigest()[:16], conf_name))
 
